@@ -315,14 +315,14 @@ func init() {
 				tf := []string{"-", "8", "32", "100"}
 				ts := []string{"plain", "bold", "italic", "bolditalic"}
 				ti := []string{"none", "in", "out"}
-				vals := []int{1, 5, 37, 200, 1000}
+				vals := []int{1, 37, 200, 1000}
 				var oneSided [][2]int
 				for _, v := range vals {
 					oneSided = append(oneSided, [2]int{v, 0}, [2]int{0, v})
 				}
 				run("automatic size: labels(8) x font{-,8,32,100} x styles(4) x icons(3)", sizeLabelOrder, tf, ts, ti, [][2]int{{0, 0}})
-				run("explicit size {1,5,37,200,1000}^2: same attribute grid", sizeLabelOrder, tf, ts, ti, sq(vals))
-				run("one-sided size {1,5,37,200,1000} on either axis: same attribute grid", sizeLabelOrder, tf, ts, ti, oneSided)
+				run("explicit size {1,37,200,1000}^2: same attribute grid", sizeLabelOrder, tf, ts, ti, sq(vals))
+				run("one-sided size {1,37,200,1000} on either axis: same attribute grid", sizeLabelOrder, tf, ts, ti, oneSided)
 			}
 			w.Count("dagre_calls", int64(dagreCalls))
 		},
